@@ -181,6 +181,8 @@ func exec(kind string, in []string) []string {
 		return []string{ipTable(d), vh.B(policy.ValidateDomainPart(d))}
 	case "hist":
 		return execHist(in)
+	case "sweep":
+		return execSweep(in)
 	case "live":
 		return execLive(in)
 	}
